@@ -11,6 +11,11 @@ State of a wrapper = one `Slot` per parameter of the wrapped function, holding
   * `fn`    the value of the wrapped function's own parameter.
 `pi`, `tiny` are `NumConstants::PI()` and `NumConstants::TINY()`.
 
+The second constructor (h:53-59, only the parameters of a given list) is the same `init` applied to
+`function->getParameters().getCommonParametersWith(parameters)`; the function's other parameters
+never move and are part of the abstract `f` (the driver's `Ctx` does exactly this for the harness's
+polynomials).
+
 Not modelled: an `IntervalConstraint` with both bounds infinite (it falls into cases 5/6 of
 `init_` with an infinite bound), constraints that are not intervals (they get the placebo, like
 `Shape.none`), the comparison of a value with an infinite bound in `isCorrect`, parameter names
